@@ -38,6 +38,9 @@ func init() {
 const (
 	c13NPk = 3
 	c13NNm = 2
+	// bounds of the bounded-exhaustive families (thorough tier)
+	c13ExhLen2 = 5 // two packages, one name, 11 operations
+	c13ExhLen3 = 5 // three packages, one name, 14 operations
 )
 
 var c13Names = []string{"qxa", "qxb"}
@@ -219,6 +222,13 @@ type c13History struct {
 	cell   string // sweep: the single operation's token
 }
 
+func (h c13History) suffixKind() string {
+	if h.family == "exhaustive" {
+		return "y"
+	}
+	return "x"
+}
+
 func (h c13History) tokens(model bool) string {
 	toks := make([]string, len(h.ops))
 	for i, o := range h.ops {
@@ -304,7 +314,7 @@ func c13Same(items ...string) string {
 }
 
 // c13Observe resolves every name from every defined package; undefined packages give "_".
-func c13Observe(suffix string, defined []bool, cur int) string {
+func c13Observe(suffix string, defined []bool, cur int, skipName []bool) string {
 	var items []string
 	for c := 0; c < c13NPk; c++ {
 		if !defined[c] {
@@ -316,6 +326,10 @@ func c13Observe(suffix string, defined []bool, cur int) string {
 		c13Eval("(in-package '" + c13PkgName(suffix, c) + ")")
 		for n := 0; n < c13NNm; n++ {
 			name := c13Names[n]
+			if skipName[n] {
+				items = append(items, "_", "_", "_")
+				continue
+			}
 			// variable: plain evaluation, symbol-value, boundp
 			v1 := c13Item(c13Eval(name), "unbound-variable")
 			v2 := c13Item(c13Eval("(symbol-value '"+name+")"), "unbound-variable")
@@ -344,7 +358,7 @@ func c13Observe(suffix string, defined []bool, cur int) string {
 		}
 		for q := 0; q < c13NPk; q++ {
 			for n := 0; n < c13NNm; n++ {
-				if !defined[q] {
+				if !defined[q] || skipName[n] {
 					items = append(items, "_", "_", "_", "_")
 					continue
 				}
@@ -369,6 +383,26 @@ func c13Observe(suffix string, defined []bool, cur int) string {
 // c13RunImpl executes the history on the interpreter; returns the observation blocks joined with
 // "|" (same layout as the model's reply) or "operr …" when an operation itself failed.
 func c13RunImpl(ops []c13Op, suffix string) (reply string) {
+	// suffix "y…": sparse mode (bounded-exhaustive family) — names no operation of the history
+	// mentions are not looked up (all packages are fresh, they cannot be bound)
+	skipName := make([]bool, c13NNm)
+	if strings.HasPrefix(suffix, "y") {
+		for n := range skipName {
+			skipName[n] = true
+		}
+		for _, o := range ops {
+			switch o.kind {
+			case "E", "Z":
+				skipName[o.b] = false
+			case "V", "W", "S", "F", "M", "K", "G":
+				skipName[o.a] = false
+			case "P":
+				for _, n := range o.ex {
+					skipName[n] = false
+				}
+			}
+		}
+	}
 	defined := make([]bool, c13NPk)
 	cur := -1
 	var blocks []string
@@ -377,12 +411,17 @@ func c13RunImpl(ops []c13Op, suffix string) (reply string) {
 		for p := 0; p < c13NPk; p++ {
 			if pkg := slip.FindPackage(c13PkgName(suffix, p)); pkg != nil {
 				_ = lib.Protect(func() slip.Object {
-					for _, u := range append([]*slip.Package{}, pkg.Users...) {
-						u.Unuse(pkg)
+					// clean-up, not under test: detach the package from the use graph by hand (an
+					// Unuse per used package would rebuild its tables twice) and drop it
+					for _, u := range pkg.Uses {
+						for i, x := range u.Users {
+							if x == pkg {
+								u.Users = append(u.Users[:i:i], u.Users[i+1:]...)
+								break
+							}
+						}
 					}
-					for _, u := range append([]*slip.Package{}, pkg.Uses...) {
-						pkg.Unuse(u)
-					}
+					pkg.Uses = nil
 					slip.RemovePackage(pkg)
 					return nil
 				})
@@ -391,7 +430,7 @@ func c13RunImpl(ops []c13Op, suffix string) (reply string) {
 	}()
 	for i, o := range ops {
 		if o.kind == "O" {
-			blocks = append(blocks, c13Observe(suffix, defined, cur))
+			blocks = append(blocks, c13Observe(suffix, defined, cur, skipName))
 			continue
 		}
 		var out lib.Outcome
@@ -491,7 +530,7 @@ func c13ImplAll(hs []c13History) []string {
 			defer wg.Done()
 			var in bytes.Buffer
 			for i := w; i < len(hs); i += nw {
-				fmt.Fprintf(&in, "%d x%d %s\n", i, hs[i].id, hs[i].tokens(false))
+				fmt.Fprintf(&in, "%d %s%d %s\n", i, hs[i].suffixKind(), hs[i].id, hs[i].tokens(false))
 			}
 			cmd := exec.Command(os.Args[0], "C13-worker")
 			cmd.Stdin = &in
@@ -528,7 +567,7 @@ func c13ImplAll(hs []c13History) []string {
 				continue
 			}
 			cmd := exec.Command(os.Args[0], "C13-worker")
-			cmd.Stdin = strings.NewReader(fmt.Sprintf("%d x%d %s\n", i, hs[i].id, hs[i].tokens(false)))
+			cmd.Stdin = strings.NewReader(fmt.Sprintf("%d %s%d %s\n", i, hs[i].suffixKind(), hs[i].id, hs[i].tokens(false)))
 			out, err := cmd.Output()
 			_, reply, _ := strings.Cut(strings.TrimSpace(string(out)), " ")
 			if err != nil || reply == "" {
@@ -1076,8 +1115,15 @@ func c13Exhaustive(maxLen int, three bool, avoid bool) []c13History {
 	var rec func(g c13Gen, depth int, lastI bool)
 	rec = func(g c13Gen, depth int, lastI bool) {
 		if depth > 0 {
+			// observe after the last two operations: every shorter history is enumerated on its own
 			h := c13History{family: "exhaustive"}
-			h.ops = append([]c13Op{}, g.ops...)
+			nops := len(g.ops)
+			for i, o := range g.ops {
+				h.ops = append(h.ops, o)
+				if i == nops-1 || (i == nops-2 && i >= len(pre)-1) {
+					h.ops = append(h.ops, c13Op{kind: "O"})
+				}
+			}
 			hs = append(hs, h)
 		}
 		if depth == maxLen {
@@ -1109,7 +1155,6 @@ func c13Exhaustive(maxLen int, three bool, avoid bool) []c13History {
 				g2.tag++
 			}
 			g2.apply(o)
-			g2.apply(c13Op{kind: "O"})
 			rec(g2, depth+1, s.kind == "I")
 		}
 	}
@@ -1119,20 +1164,7 @@ func c13Exhaustive(maxLen int, three bool, avoid bool) []c13History {
 	}
 	g.avoidTransitive = avoid
 	rec(g, 0, true)
-	// keep only maximal histories: every proper prefix is observed inside its extensions
-	var out []c13History
-	for _, h := range hs {
-		n := 0
-		for _, o := range h.ops {
-			if o.kind == "O" {
-				n++
-			}
-		}
-		if n == maxLen {
-			out = append(out, h)
-		}
-	}
-	return out
+	return hs
 }
 
 // ---------------------------------------------------------------------------------------------
@@ -1259,18 +1291,35 @@ func runC13(c *lib.Ctx) {
 	var hs []c13History
 	sweep := c13Sweep()
 	hs = append(hs, sweep...)
-	random := c13Random(c.Rng, c.Scale(1500, 12000), avoid)
+	random := c13Random(c.Rng, c.Scale(1500, 6000), avoid)
 	hs = append(hs, random...)
 	nExh := 0
 	if c.Thorough() {
-		e1 := c13Exhaustive(5, false, avoid)
-		e2 := c13Exhaustive(4, true, avoid)
+		e1 := c13Exhaustive(c13ExhLen2, false, avoid)
+		e2 := c13Exhaustive(c13ExhLen3, true, avoid)
 		nExh = len(e1) + len(e2)
 		hs = append(hs, e1...)
 		hs = append(hs, e2...)
 	}
 	for i := range hs {
 		hs[i].id = i
+	}
+	if fam := os.Getenv("VERIF_C13_FAMILIES"); fam != "" {
+		// debugging aid: restrict the run to some families (sweep,random,exhaustive)
+		var keep []c13History
+		for _, h := range hs {
+			if strings.Contains(fam, strings.SplitN(h.family, ":", 2)[0]) {
+				keep = append(keep, h)
+			}
+		}
+		hs = keep
+		for i := range hs {
+			hs[i].id = i
+		}
+	}
+	if os.Getenv("VERIF_C13_DRY") != "" {
+		fmt.Fprintf(os.Stderr, "c13: sweep %d random %d exhaustive %d\n", len(sweep), len(random), nExh)
+		os.Exit(2)
 	}
 	reqs := make([]string, len(hs))
 	for i, h := range hs {
